@@ -48,7 +48,8 @@ func runC40(run *mon.Run, thorough bool) {
 	}
 	run.Set("bound", fmt.Sprintf("every non-empty subset of size <= %d of the starting-round grid %v, every insertion order, every query round 0..max+offset+2, every prune point (each stored start, each non-stored grid value, PruneRoundStorage with every target count)", maxK, c40Grid))
 	run.Assume(fmt.Sprintf("non-genesis magic blocks start after round ViewChangeOffset (%d): for a start in 1..%d mbRoundOffset is not monotonic (rounds <= %d are looked up without offset, round %d with it)", chain.ViewChangeOffset, chain.ViewChangeOffset, chain.ViewChangeOffset, chain.ViewChangeOffset+1))
-	run.Assume("a prune that removes every stored magic block is outside the statement (nothing is retained); Chain.PruneRoundStorage always keeps >= 1 entry")
+	run.Assume("a prune that removes every stored magic block is outside the statement (nothing is retained); Chain.PruneRoundStorage always keeps >= 1 entry. " +
+		"In the operation sequences such a prune is judged (the storage must be empty afterwards) and ends the sequence; what a later Put of an older start does is counted as an observation only")
 
 	origStorage := c.MagicBlockStorage
 	origPrev := c.PreviousMagicBlock
@@ -332,6 +333,8 @@ func runC40(run *mon.Run, thorough bool) {
 		}
 	}
 
+	// operation sequences: Put / Prune / lookups interleaved, judged after every step against the reference model
+	c40seqRun(run, rnd.Fork("sequences"), c, thorough)
 }
 
 func maxOf(s []int64) int64 {
@@ -354,4 +357,529 @@ func dedup64(s []int64) []int64 {
 		}
 	}
 	return out
+}
+
+// ---------------------------------------------------------------------------------------------------------------------
+// Operation sequences. The cases above build a storage, prune once and query; here Put (any order, again for a retained
+// start, again for a pruned start), Prune (at every stored start: fewer than half of the entries, half or more, all but
+// one, everything; and at a value that is not stored) and the lookups are interleaved, and after every step the whole
+// observable state (Count, GetRounds, GetRound, GetLatest, Get and FindRoundIndex below/at/above every start) is compared
+// with a reference model: a map start -> entity, floor lookup over its sorted keys, latest = highest stored start.
+// The same is done through the real Chain (SetMagicBlock / PruneRoundStorage / GetMagicBlock / GetMagicBlockNoOffset /
+// GetPrevMagicBlock / GetLatestMagicBlock).
+
+type c40seqOp struct {
+	Kind  string `json:"op"`    // "put", "prune" (storage.Prune(round)) or "keep" (Chain.PruneRoundStorage with target count = round)
+	Round int64  `json:"round"` // starting round, or the target count of "keep"
+}
+
+func c40seqString(ops []c40seqOp) string {
+	var b []byte
+	for i, o := range ops {
+		if i > 0 {
+			b = append(b, ' ')
+		}
+		b = append(b, fmt.Sprintf("%s(%d)", o.Kind, o.Round)...)
+	}
+	return string(b)
+}
+
+// c40seqModel is the reference model.
+type c40seqModel struct {
+	ent    map[int64]interface{} // stored start -> entity given with the last Put of that start
+	pruned map[int64]bool        // starts removed by a prune and not stored again (only used to name the kind of a Put)
+}
+
+func c40seqNewModel() *c40seqModel {
+	return &c40seqModel{ent: map[int64]interface{}{}, pruned: map[int64]bool{}}
+}
+
+func (m *c40seqModel) sorted() []int64 {
+	out := make([]int64, 0, len(m.ent))
+	for s := range m.ent {
+		out = append(out, s)
+	}
+	sort.Slice(out, func(i, j int) bool { return out[i] < out[j] })
+	return out
+}
+
+// put stores e for start r and names the kind of the Put.
+func (m *c40seqModel) put(r int64, e interface{}) string {
+	sorted := m.sorted()
+	class := ""
+	switch {
+	case len(sorted) == 0 && m.pruned[r]:
+		class = "put-pruned-start-into-empty"
+	case len(sorted) == 0:
+		class = "put-into-empty"
+	case m.ent[r] != nil && r == sorted[len(sorted)-1]:
+		class = "reput-latest"
+	case m.ent[r] != nil:
+		class = "reput-retained-older"
+	case m.pruned[r] && r < sorted[0]:
+		class = "put-pruned-start-below-all"
+	case m.pruned[r]:
+		class = "put-pruned-start-between" // above a start that was put again after the prune
+	case r > sorted[len(sorted)-1]:
+		class = "put-above-latest"
+	case r < sorted[0]:
+		class = "put-new-below-all"
+	default:
+		class = "put-new-between"
+	}
+	m.ent[r] = e
+	delete(m.pruned, r)
+	return class
+}
+
+// prune removes every start <= p when p is stored; reports whether p was stored and names the kind of the prune.
+func (m *c40seqModel) prune(p int64) (bool, string) {
+	if _, ok := m.ent[p]; !ok {
+		return false, "prune-not-stored"
+	}
+	n, k := len(m.ent), 0
+	for s := range m.ent {
+		if s <= p {
+			k++
+		}
+	}
+	for s := range m.ent {
+		if s <= p {
+			delete(m.ent, s)
+			m.pruned[s] = true
+		}
+	}
+	switch {
+	case k == n:
+		return true, "prune-everything"
+	case k == n-1:
+		return true, "prune-all-but-one"
+	case 2*k >= n:
+		return true, "prune-half-or-more"
+	}
+	return true, "prune-less-than-half"
+}
+
+// c40seqQueries: rounds below / at / above every start of the universe (also across the view-change offset), far above, 0.
+func c40seqQueries(universe []int64) []int64 {
+	seen := map[int64]bool{}
+	var out []int64
+	add := func(q int64) {
+		if q >= 0 && !seen[q] {
+			seen[q] = true
+			out = append(out, q)
+		}
+	}
+	add(0)
+	top := int64(0)
+	for _, u := range universe {
+		for _, d := range []int64{-1, 0, 1, chain.ViewChangeOffset - 1, chain.ViewChangeOffset, chain.ViewChangeOffset + 1} {
+			add(u + d)
+		}
+		if u > top {
+			top = u
+		}
+	}
+	add(top + 2*chain.ViewChangeOffset + 3)
+	add(top + 1000)
+	add(1 << 40)
+	sort.Slice(out, func(i, j int) bool { return out[i] < out[j] })
+	return out
+}
+
+// c40seqJudgeStorage compares everything the storage shows with the model.
+func c40seqJudgeStorage(run *mon.Run, st round.RoundStorage, m *c40seqModel, queries []int64, ops []c40seqOp) {
+	run.Count("seq_storage_step_judged", 1)
+	sorted := m.sorted()
+	replay := func(extra ...interface{}) map[string]interface{} {
+		r := map[string]interface{}{"level": "storage", "ops": ops, "model_stored_starts": sorted}
+		for i := 0; i+1 < len(extra); i += 2 {
+			r[extra[i].(string)] = extra[i+1]
+		}
+		return r
+	}
+	if got := st.GetRounds(); fmt.Sprint(got) != fmt.Sprint(sorted) || st.Count() != len(sorted) {
+		violate(run, "C40:storage-rounds-not-sorted-set", fmt.Sprintf("after [%s]: GetRounds=%v Count=%d, stored starts are %v", c40seqString(ops), got, st.Count(), sorted), replay())
+		return
+	}
+	for i, s := range sorted {
+		if g := st.GetRound(i); g != s {
+			violate(run, "C40:storage-rounds-not-sorted-set", fmt.Sprintf("after [%s]: GetRound(%d)=%d, stored starts are %v", c40seqString(ops), i, g, sorted), replay())
+		}
+	}
+	run.Count("seq_storage_get_latest", 1)
+	var wantLatest interface{}
+	if len(sorted) > 0 {
+		wantLatest = m.ent[sorted[len(sorted)-1]]
+	}
+	if l := st.GetLatest(); l != wantLatest {
+		violate(run, "C40:latest-mismatch", fmt.Sprintf("after [%s]: GetLatest returned %s, the highest stored start of %v is expected", c40seqString(ops), c40seqName(l), sorted), replay())
+	}
+	for _, q := range queries {
+		run.Count("seq_storage_get_floor", 1)
+		wi := refFloor(sorted, q)
+		var want interface{}
+		if wi >= 0 {
+			want = m.ent[sorted[wi]]
+		}
+		if got := st.Get(q); got != want {
+			violate(run, "C40:floor-lookup-mismatch", fmt.Sprintf("after [%s]: storage.Get(%d) returned %s, stored starts are %v, expected %s", c40seqString(ops), q, c40seqName(got), sorted, c40seqName(want)), replay("query", q))
+		}
+		if gi := st.FindRoundIndex(q); gi != wi {
+			violate(run, "C40:find-round-index-mismatch", fmt.Sprintf("after [%s]: FindRoundIndex(%d)=%d, stored starts are %v, expected %d", c40seqString(ops), q, gi, sorted, wi), replay("query", q))
+		}
+	}
+}
+
+func c40seqName(e interface{}) string {
+	switch v := e.(type) {
+	case nil:
+		return "nothing"
+	case *c40Ent:
+		return fmt.Sprintf("the entity of start %d", v.start)
+	case *block.MagicBlock:
+		return fmt.Sprintf("the magic block %q (start %d)", v.Hash, v.StartingRound)
+	}
+	return fmt.Sprintf("%v", e)
+}
+
+// c40seqStorage replays ops on a fresh real storage and on the model. With judgeEvery the state is judged after every step, otherwise
+// after the last one (the exhaustive enumeration contains every prefix as a sequence of its own). A prune that removes everything
+// ends the sequence (see the assumption recorded by runC40); returns false when that happened before the last op.
+func c40seqStorage(run *mon.Run, ops []c40seqOp, queries []int64, judgeEvery bool) (bool, string) {
+	var st round.RoundStorage = round.NewRoundStartingStorage()
+	m := c40seqNewModel()
+	classes := ""
+	for i, o := range ops {
+		last := i == len(ops)-1
+		var class string
+		switch o.Kind {
+		case "put":
+			e := &c40Ent{o.Round}
+			class = m.put(o.Round, e)
+			if err := st.Put(e, o.Round); err != nil {
+				violate(run, "C40:put-fails", fmt.Sprintf("after [%s]: %v", c40seqString(ops[:i+1]), err), map[string]interface{}{"level": "storage", "ops": ops[:i+1]})
+			}
+		case "prune":
+			before := m.sorted()
+			var ok bool
+			ok, class = m.prune(o.Round)
+			err := st.Prune(o.Round)
+			if judgeEvery || last {
+				run.Count("seq_storage_prune_result", 1)
+				if ok != (err == nil) {
+					violate(run, "C40:prune-result", fmt.Sprintf("after [%s]: Prune(%d) with stored starts %v returned %v", c40seqString(ops[:i]), o.Round, before, err), map[string]interface{}{"level": "storage", "ops": ops[:i+1]})
+				}
+			}
+		}
+		classes += "," + class
+		if judgeEvery || last {
+			run.Count("seq_op["+class+"]", 1)
+			c40seqJudgeStorage(run, st, m, queries, ops[:i+1])
+		}
+		if class == "prune-everything" {
+			if judgeEvery || last {
+				// observation only (outside the statement: nothing is retained): an older start put after everything was pruned
+				older := o.Round - 1
+				if older >= 0 {
+					e := &c40Ent{older}
+					_ = st.Put(e, older)
+					if st.Get(o.Round+1) == interface{}(e) && st.GetLatest() == interface{}(e) {
+						run.Count("obs_put_of_older_start_after_prune_everything_found", 1)
+					} else {
+						run.Count("obs_put_of_older_start_after_prune_everything_not_found", 1)
+					}
+				}
+			}
+			return last, classes
+		}
+	}
+	return true, classes
+}
+
+// c40seqChain replays ops on the real Chain (fresh magic-block storage) and on the model.
+func c40seqChain(run *mon.Run, c *chain.Chain, ops []c40seqOp, queries []int64, judgeEvery bool) string {
+	c.MagicBlockStorage = round.NewRoundStartingStorage()
+	m := c40seqNewModel()
+	classes := ""
+	gen := 0
+	for i, o := range ops {
+		last := i == len(ops)-1
+		var class string
+		cur := ops[:i+1]
+		func() {
+			defer func() {
+				if r := recover(); r != nil {
+					violate(run, "C40:chain-call-panics", fmt.Sprintf("[%s]: the last operation panicked: %v", c40seqString(cur), r), map[string]interface{}{"level": "chain", "ops": cur})
+				}
+			}()
+			switch o.Kind {
+			case "put":
+				gen++
+				mb := block.NewMagicBlock()
+				mb.StartingRound = o.Round
+				mb.MagicBlockNumber = o.Round + 1
+				mb.Hash = fmt.Sprintf("c40seq-mb-%d-#%d", o.Round, gen)
+				class = m.put(o.Round, mb)
+				c.SetMagicBlock(mb)
+			case "keep":
+				sorted := m.sorted()
+				class = "keep-all"
+				if t := int(o.Round); len(sorted) > t {
+					_, class = m.prune(sorted[len(sorted)-t-1])
+				}
+				target := int(o.Round)
+				c.PruneRoundStorage(func(round.RoundStorage) int { return target }, c.MagicBlockStorage)
+			}
+		}()
+		classes += "," + class
+		if !(judgeEvery || last) || len(m.ent) == 0 {
+			continue
+		}
+		run.Count("seq_op[chain-"+class+"]", 1)
+		run.Count("seq_chain_step_judged", 1)
+		sorted := m.sorted()
+		n := len(sorted)
+		if fmt.Sprint(c.MagicBlockStorage.GetRounds()) != fmt.Sprint(sorted) {
+			violate(run, "C40:prune-retained-set", fmt.Sprintf("after [%s]: the chain's storage holds %v, expected %v", c40seqString(cur), c.MagicBlockStorage.GetRounds(), sorted), map[string]interface{}{"level": "chain", "ops": cur})
+			continue
+		}
+		call := func(name string, q int64, f func() *block.MagicBlock) (mb *block.MagicBlock, ok bool) {
+			defer func() {
+				if r := recover(); r != nil {
+					violate(run, "C40:lookup-panics", fmt.Sprintf("after [%s]: Chain.%s(%d) panicked with stored starts %v: %v", c40seqString(cur), name, q, sorted, r),
+						map[string]interface{}{"level": "chain", "ops": cur, "query": q, "call": name})
+					mb, ok = nil, false
+				}
+			}()
+			return f(), true
+		}
+		run.Count("seq_chain_latest", 1)
+		if g, ok := call("GetLatestMagicBlock", 0, c.GetLatestMagicBlock); ok && interface{}(g) != m.ent[sorted[n-1]] {
+			violate(run, "C40:latest-mismatch", fmt.Sprintf("after [%s]: Chain.GetLatestMagicBlock returned %s, stored starts are %v", c40seqString(cur), c40seqName(g), sorted), map[string]interface{}{"level": "chain", "ops": cur})
+		}
+		for _, q := range queries {
+			q := q
+			run.Count("seq_chain_get_magic_block", 1)
+			wi := refFloor(sorted, refEffective(q))
+			pi := wi
+			if wi < 0 {
+				wi = n - 1 // none starts earlier: the latest one
+			}
+			if g, ok := call("GetMagicBlock", q, func() *block.MagicBlock { return c.GetMagicBlock(q) }); ok && interface{}(g) != m.ent[sorted[wi]] {
+				violate(run, "C40:floor-lookup-mismatch", fmt.Sprintf("after [%s]: Chain.GetMagicBlock(%d) returned %s, stored starts are %v, expected the one starting at %d", c40seqString(cur), q, c40seqName(g), sorted, sorted[wi]),
+					map[string]interface{}{"level": "chain", "ops": cur, "query": q})
+			}
+			wn := refFloor(sorted, q)
+			if wn < 0 {
+				wn = n - 1
+			}
+			if g, ok := call("GetMagicBlockNoOffset", q, func() *block.MagicBlock { return c.GetMagicBlockNoOffset(q) }); ok && interface{}(g) != m.ent[sorted[wn]] {
+				violate(run, "C40:floor-lookup-mismatch-no-offset", fmt.Sprintf("after [%s]: Chain.GetMagicBlockNoOffset(%d) returned %s, stored starts are %v, expected the one starting at %d", c40seqString(cur), q, c40seqName(g), sorted, sorted[wn]),
+					map[string]interface{}{"level": "chain", "ops": cur, "query": q})
+			}
+			if pi >= 1 {
+				run.Count("seq_chain_get_prev_magic_block", 1)
+				if g, ok := call("GetPrevMagicBlock", q, func() *block.MagicBlock { return c.GetPrevMagicBlock(q) }); ok && interface{}(g) != m.ent[sorted[pi-1]] {
+					violate(run, "C40:prev-magic-block-mismatch", fmt.Sprintf("after [%s]: Chain.GetPrevMagicBlock(%d) returned %s, stored starts are %v, expected the one starting at %d", c40seqString(cur), q, c40seqName(g), sorted, sorted[pi-1]),
+						map[string]interface{}{"level": "chain", "ops": cur, "query": q})
+				}
+			}
+		}
+	}
+	return classes
+}
+
+func c40seqRun(run *mon.Run, rnd *mon.Rand, c *chain.Chain, thorough bool) {
+	universe := []int64{0, 5, 9, 14}
+	maxLen := 5
+	if thorough {
+		maxLen = 6
+	}
+	run.Set("sequence_bound", fmt.Sprintf("every sequence of <= %d operations out of Put(s)/Prune(s), s in %v, on the storage and of SetMagicBlock(s)/PruneRoundStorage(keep 1..3) on the chain (a prune that removes everything ends a sequence); "+
+		"judged after every step at the rounds below/at/above every start and across the view-change offset", maxLen, universe))
+	queries := c40seqQueries(universe)
+	var stAlpha, chAlpha []c40seqOp
+	for _, u := range universe {
+		stAlpha = append(stAlpha, c40seqOp{"put", u})
+		chAlpha = append(chAlpha, c40seqOp{"put", u})
+	}
+	for _, u := range universe {
+		stAlpha = append(stAlpha, c40seqOp{"prune", u})
+	}
+	for t := int64(1); t <= 3; t++ {
+		chAlpha = append(chAlpha, c40seqOp{"keep", t})
+	}
+	enumerate := func(alpha []c40seqOp, f func(ops []c40seqOp)) {
+		ops := make([]c40seqOp, 0, maxLen)
+		var rec func()
+		rec = func() {
+			if len(ops) > 0 {
+				f(ops)
+			}
+			if len(ops) == maxLen {
+				return
+			}
+			for _, o := range alpha {
+				ops = append(ops, o)
+				rec()
+				ops = ops[:len(ops)-1]
+			}
+		}
+		rec()
+	}
+	nSt, nCh := 0, 0
+	enumerate(stAlpha, func(ops []c40seqOp) {
+		if ops[0].Kind != "put" {
+			return // a prune of an empty storage first: the same sequences appear without it
+		}
+		if nSt%2000 == 0 {
+			checkpoint(run)
+		}
+		if complete, classes := c40seqStorage(run, ops, queries, false); complete {
+			nSt++
+			run.Eval(1)
+			run.Distinct("seq-storage" + classes)
+		}
+	})
+	enumerate(chAlpha, func(ops []c40seqOp) {
+		if ops[0].Kind != "put" {
+			return
+		}
+		if nCh%2000 == 0 {
+			checkpoint(run)
+		}
+		nCh++
+		run.Eval(1)
+		run.Distinct("seq-chain" + c40seqChain(run, c, ops, queries, false))
+	})
+	run.Set("exhaustive_storage_sequences", nSt)
+	run.Set("exhaustive_chain_sequences", nCh)
+
+	// seeded longer sequences over larger universes (realistic view-change spacing), judged after every step
+	nRandom := 250
+	if thorough {
+		nRandom = 4000
+	}
+	sampled := 0
+	for i := 0; i < nRandom; i++ {
+		checkpoint(run)
+		nu := 4 + rnd.Intn(11)
+		seen := map[int64]bool{}
+		var uni []int64
+		if rnd.Chance(0.5) {
+			uni, seen[0] = append(uni, 0), true
+		}
+		base := int64(5 + rnd.Intn(40))
+		for len(uni) < nu {
+			var s int64
+			switch rnd.Intn(3) {
+			case 0:
+				s = base + int64(rnd.Intn(60))
+			case 1:
+				s = int64(1+rnd.Intn(14))*50 + 1
+			default:
+				s = base + int64(rnd.Intn(8))*int64(1+rnd.Intn(6))
+			}
+			if !seen[s] {
+				seen[s] = true
+				uni = append(uni, s)
+			}
+		}
+		qs := c40seqQueries(uni)
+		onChain := i%2 == 1
+		length := 8 + rnd.Intn(40)
+		var ops []c40seqOp
+		model := c40seqNewModel() // only to steer the generator towards every kind of prune
+		for len(ops) < length {
+			sorted := model.sorted()
+			if len(sorted) == 0 || rnd.Chance(0.7) || (len(sorted) < 5 && rnd.Chance(0.6)) {
+				var s int64
+				switch {
+				case len(sorted) > 0 && rnd.Chance(0.3):
+					s = sorted[rnd.Intn(len(sorted))] // again for a retained start
+				case len(model.pruned) > 0 && rnd.Chance(0.3):
+					var was []int64 // again for a start that was pruned
+					for _, u := range uni {
+						if model.pruned[u] {
+							was = append(was, u)
+						}
+					}
+					s = was[rnd.Intn(len(was))]
+				default:
+					s = uni[rnd.Intn(len(uni))]
+				}
+				ops = append(ops, c40seqOp{"put", s})
+				model.put(s, true)
+				continue
+			}
+			n := len(sorted)
+			var k int // how many entries go
+			switch rnd.Intn(6) {
+			case 0:
+				k = 0 // a value that is not stored / keep everything
+			case 1:
+				k = 1
+			case 2:
+				k = (n + 1) / 2
+			case 3:
+				k = n/2 + 1 + rnd.Intn(n-n/2)
+			case 4:
+				k = n - 1
+			default:
+				k = n
+				if onChain || rnd.Chance(0.7) {
+					k = n - 1
+				}
+			}
+			if k > n {
+				k = n
+			}
+			if onChain {
+				t := n - k
+				if t < 1 {
+					t = 1
+				}
+				if k == 0 {
+					t = n + rnd.Intn(2)
+				}
+				ops = append(ops, c40seqOp{"keep", int64(t)})
+				if n > t {
+					model.prune(sorted[n-t-1])
+				}
+				continue
+			}
+			if k == 0 {
+				p := int64(-1)
+				for _, u := range uni {
+					if _, stored := model.ent[u]; !stored {
+						p = u
+					}
+				}
+				if p < 0 {
+					p = sorted[n-1] + 1
+				}
+				ops = append(ops, c40seqOp{"prune", p})
+				continue
+			}
+			ops = append(ops, c40seqOp{"prune", sorted[k-1]})
+			model.prune(sorted[k-1])
+			if k == n {
+				break
+			}
+		}
+		run.Eval(1)
+		run.Count("random_sequences", 1)
+		var classes string
+		if onChain {
+			classes = c40seqChain(run, c, ops, qs, true)
+		} else {
+			_, classes = c40seqStorage(run, ops, qs, true)
+		}
+		run.Distinct(fmt.Sprintf("seq-random chain=%v%s", onChain, classes))
+		if sampled < 2 && len(ops) >= 12 {
+			sampled++
+			run.Sample(map[string]interface{}{"sequence_on_chain": onChain, "starting_rounds": uni, "operations": c40seqString(ops), "kinds": classes, "query_rounds": len(qs)})
+		}
+	}
 }
